@@ -32,6 +32,6 @@ def extra(tier, seed):
     return m1_static.extras('C04') + [
             run_native('C04:bounded:entry-points', 'm1_entrypoints.py', [], bound='1 cross-sectional model (2 free parameters, 4 rows) x scaled x hessian x bhhh x save_iterations; wrong lengths 0/1/3 -> ValueError; batch -> BiogemeError; 1 panel model (2 individuals) whose individual map is made stale after construction; debug logging on'),
             run_native('C04:bounded:likelihood-after-simulation-on-the-same-object', 'c04_history.py', [],
-                       bound='weighted regression-type formula, 12 and 7 rows, 1/2/3/5 threads, 3 histories (likelihood / derivatives / nothing before the simulation)'),
+                       bound='weighted regression-type formula, 12 and 7 rows, 1/2/3/5 threads, 3 histories (likelihood / derivatives / nothing before the simulation); 4 points inside / outside declared bounds'),
             run_native('C04:bounded:aggregation', 'c04_aggregation.py', [tier, str(seed)],
                        bound='see the harness bound string: logit/regression scenarios, weights incl. zeros, threads 1/2/3/7/N+3, all permutations of <= 4 rows, partitions', timeout=1500)]
